@@ -40,12 +40,28 @@ def finite_choice(spec):
     return all(ok(f) for c in spec["classes"] for _, f in c["fields"])
 
 
-def one(spec, batch, stats, lang=False):
+def one(spec, batch, stats, lang=False, staged=False):
     b = GR.build(spec)
     try:
         decl = GR.declared_from_spec(declared_grammar(list(b.classes.values()), b.start), spec)
         evs = []
         g0 = None
+        if staged:
+            # a history before the analysis under test: a grammar over all classes BUT ONE was extracted, printed and
+            # used first (so whatever the library memoises per class exists for the ancestors of the class left out)
+            withf = [c for c in spec["classes"] if not c["abstract"] and c["fields"] and c["name"] != spec["start"]]
+            if withf:
+                drop = b.classes[withf[-1]["name"]]
+                try:
+                    with time_limit(5):
+                        gs = extract_grammar([c for c in b.considered if c is not drop], b.start)
+                        repr(gs)
+                        from geneticengine.grammar.utils import get_arguments
+                        for c in b.classes.values():
+                            if c is not drop:
+                                get_arguments(c)
+                except Exception:
+                    pass
         for mode in (False, True):
             try:
                 with time_limit(5):
@@ -66,7 +82,7 @@ def one(spec, batch, stats, lang=False):
                     evs.append({"e": "usable_lang", "d": d, "impl": iu})
             except Exception as e:
                 evs.append({"e": "usable", "exc": exc_name(e), "impl": {"expd": False}})
-        batch.trace(spec["id"], evs, {"k": "grammar", "g": decl})
+        batch.trace(spec["id"] + ("/staged" if staged else ""), evs, {"k": "grammar", "g": decl})
         stats["events"] += len(evs)
     finally:
         b.dispose()
@@ -110,9 +126,10 @@ def main():
     stats = {"events": 0}
     for spec in GR.fixed_specs():
         one(spec, batch, stats, lang=True)
+        one(spec, batch, stats, staged=True)
     n = 300 if a.tier == "quick" else 6000
     for i, spec in enumerate(GR.family(R, n, FEATS)):
-        one(spec, batch, stats, lang=(i % 10 == 0))
+        one(spec, batch, stats, lang=(i % 10 == 0), staged=(i % 4 == 1))
     for i in range(40 if a.tier == "quick" else 800):
         one_synthetic(i, R, batch, stats)
     batch.traces = finalize(batch.traces)
